@@ -310,6 +310,9 @@ func TestVerifC19Real(t *testing.T) {
 			jt := peers[rng.Intn(len(peers))]
 			jt.peers = list
 			jt.leader = peers[rng.Intn(len(peers))].addr()
+			// (the join target itself is a working member; a node that cannot get an answer it
+			// accepts from the target gives up with a fatal error, which is a refusal)
+			jt.state = []string{"Follower", "Leader"}[rng.Intn(2)]
 			err = SynchronizedWithMasterAndNetwork(self, jt.addr(), "secret")
 		} else {
 			err = SynchronizedWithNetwork(self, list, "secret")
